@@ -29,17 +29,20 @@ def oracle(sc):
     for sid in tk:
         sp = specs.get(sid)
         if sp is not None and sp.dead:
-            out.append(E.failure('entry-survives-termination', sc, sid=sid, kind=sp.kind, iam=sp.iam, ended_by=sp.why))
+            out.append(E.failure('entry-survives-termination', sc, sid=sid, kind=sp.kind, iam=sp.iam, ended_by=sp.why,
+                                 other_direction_open=sp.other_open))
     for sid in ck:
         sp = specs.get(sid)
         out.append(E.failure('partial-frame-left-in-reassembly-cache', sc, sid=sid, kind=sp.kind if sp else None,
-                             iam=sp.iam if sp else None, ended_by=sp.why if sp else None))
+                             iam=sp.iam if sp else None, ended_by=sp.why if sp else None,
+                             other_direction_open=sp.other_open if sp else None))
     return out
 
 
 def classify(case):
     if case.get('what') in ('entry-survives-termination', 'partial-frame-left-in-reassembly-cache') and \
-            case.get('kind') == 'rc' and case.get('ended_by') in ABNORMAL:
+            case.get('kind') == 'rc' and case.get('ended_by') in ABNORMAL and case.get('other_direction_open'):
+        # the recorded finding: ERROR / CANCEL closed one direction while the OTHER was still open
         return 'KF-C10-channel-abnormal-end'
     return None
 
